@@ -53,9 +53,18 @@ def note_c16(ctx, fam, c16, replay):
         items.append((fam, c16, replay))
 
 
+_CLAUSE = r'[A-Za-z_][A-Za-z0-9_.]*(?:\[\d+\][A-Za-z0-9_.]*)*(?:\["[^"\\\\]*"\])? == (?:"[^"\\\\\x00-\x1f\x7f]*"|-?\d+(?:\.\d+)?)'
+_SAFE_QUERY = None
+
+
 def unsafe_query(q):
-    """Interpolated values that KFL string literals cannot carry (no escape processing: D43)."""
-    return q.count('"') % 2 == 1 or "\\" in q or any(ord(ch) < 32 or ord(ch) == 127 for ch in q) or '""' in q.replace('== ""', "")
+    """Interpolated values that KFL string literals cannot carry (no escape processing: D43): the query is not a
+    conjunction of `path == "value without quote, backslash or control character"` / `path == number` clauses."""
+    global _SAFE_QUERY
+    import re
+    if _SAFE_QUERY is None:
+        _SAFE_QUERY = re.compile("^%s(?: and %s)*$" % (_CLAUSE, _CLAUSE))
+    return _SAFE_QUERY.match(q) is None
 
 
 def collect_c16(ctx, fn):
